@@ -265,6 +265,18 @@ func validResponse(cfg *RealmCfg, authid string, ch *wamp.Challenge, rsp wamp.Me
 	return false
 }
 
+// jarKey: realms created from the realm template share the template's
+// authenticators and therefore one key store (one cookie jar); a statically
+// configured realm has its own.
+func (o *c09Oracle) jarKey(realm string) string {
+	for i := range o.c.Realms {
+		if o.c.Realms[i].URI == realm {
+			return realm
+		}
+	}
+	return "<template>"
+}
+
 func (o *c09Oracle) realmFor(name string) (*RealmCfg, bool) {
 	for i := range o.c.Realms {
 		if o.c.Realms[i].URI == name {
@@ -367,7 +379,7 @@ func (o *c09Oracle) expect(cd *cand, local bool) (string, string) {
 	}
 	if cfg.CookieAuth && (method == "ticket" || method == "wampcra") {
 		sc := &o.c.Sess[cd.idx]
-		if sc.Cookie != "" && o.jar[string(h.Realm)+"|"+sc.Cookie] == authid {
+		if sc.Cookie != "" && o.jar[o.jarKey(string(h.Realm))+"|"+sc.Cookie] == authid {
 			return "welcome", "recognised by the tracking cookie handed to this user after an earlier authentication"
 		}
 	}
@@ -502,7 +514,7 @@ func (o *c09Oracle) OnStep(e *Engine, st *StepRec) *Violation {
 				if m, _ := wamp.AsString(cd.welcome.Details["authmethod"]); m == "ticket" || m == "wampcra" {
 					if nc := e.Sess[s].Cfg.NextCookie; nc != "" {
 						id, _ := wamp.AsString(cd.welcome.Details["authid"])
-						o.jar[string(cd.firstHello.Realm)+"|"+nc] = id
+						o.jar[o.jarKey(string(cd.firstHello.Realm))+"|"+nc] = id
 						o.st.Label("tracking_cookie_recorded")
 					}
 				}
